@@ -34,7 +34,7 @@ Definition attr_val (e : pyexc) (a : pattr) : pyval :=
 Inductive vprog :=
 | VNoneRet                                (* return None *)
 | VAttrInt (a : pattr) (rest : vprog)     (* val = getattr(exc, a, None); if isinstance(val, int): return val;  rest *)
-| VArgInt (lo hi : Z) (rest : vprog).     (* for arg in exc.args: if isinstance(arg, int) and lo <= arg <= hi: return arg;  rest *)
+| VArgInt (lo hi : Z) (rest : vprog).     (* args = getattr(exc, 'args', ()); if isinstance(args, Iterable): for arg in args: if isinstance(arg, int) and lo <= arg <= hi: return arg;  rest *)
 Fixpoint vexec (e : pyexc) (p : vprog) : option Z :=
   match p with
   | VNoneRet => None
